@@ -286,6 +286,21 @@ class FormattedNumber(str):
     return o
 
 
+class DefaultDict(dict):
+  """collections.defaultdict with a list / dict / int factory."""
+
+  def __init__(self, factory):
+    dict.__init__(self)
+    self.default_factory = factory
+
+  def __missing__(self, key):
+    if self.default_factory is None:
+      raise KeyError(key)
+    v = self.default_factory()
+    self[key] = v
+    return v
+
+
 class NArr(list):
   """A concrete numpy / tensorflow array of numbers (np.asarray, tf.range,
   tf.concat of such): arithmetic and comparisons are element-wise."""
@@ -924,6 +939,8 @@ class PE(object):
         self.err("index %r of %r" % (idx, obj), node)
     if isinstance(obj, dict):
       if idx not in obj:
+        if isinstance(obj, DefaultDict) and obj.default_factory is not None:
+          return obj[idx]
         raise PyRaise("KeyError", repr(idx))
       return obj[idx]
     if isinstance(obj, Tensor):
@@ -1054,6 +1071,20 @@ class PE(object):
       return self.py_eq(a, b)
     if isinstance(op, ast.NotEq):
       return not self.py_eq(a, b)
+    if isinstance(a, tuple) and isinstance(b, tuple) and isinstance(
+        op, (ast.Lt, ast.LtE, ast.Gt, ast.GtE)):
+      # lexicographic order: the first position where the tuples differ
+      # decides (symbolic positions are decided through the path fork)
+      strict = ast.Lt() if isinstance(op, (ast.Lt, ast.LtE)) else ast.Gt()
+      for x, y in zip(a, b):
+        if self.truth(self.compare(ast.Eq(), x, y, node) if not (
+            isinstance(x, Tensor) or isinstance(y, Tensor)) else
+                      self.compare(ast.Eq(), x, y, node), node):
+          continue
+        return self.truth(self.compare(strict, x, y, node), node)
+      if len(a) != len(b):
+        return self.compare(op, len(a), len(b), node)
+      return isinstance(op, (ast.LtE, ast.GtE))
     if not (is_num(a) and is_num(b)):
       if isinstance(a, str) and isinstance(b, str):
         pass
@@ -1388,6 +1419,25 @@ class PE(object):
     return obj
 
   def call_func(self, f, args, kwargs):
+    """functools.lru_cache / functools.cache are modelled: a call with the
+    same (hashable, concrete) arguments returns the SAME object again, for
+    the lifetime of this interpreter."""
+    decos = getattr(f.node, "decorator_list", None) or []
+    if any("lru_cache" in ast.unparse(d) or ast.unparse(d).split("(")[0] in (
+        "cache", "functools.cache") for d in decos):
+      def hashable(v):
+        if isinstance(v, (str, bool, int, Fraction, type(None))):
+          return True
+        return isinstance(v, tuple) and all(hashable(e) for e in v)
+      if all(hashable(v) for v in list(args) + list(kwargs.values())):
+        memo = self.__dict__.setdefault("_lru_memo", {})
+        key = (id(f.node), tuple(args), tuple(sorted(kwargs.items())))
+        if key not in memo:
+          memo[key] = self._call_func(f, args, kwargs)
+        return memo[key]
+    return self._call_func(f, args, kwargs)
+
+  def _call_func(self, f, args, kwargs):
     self.depth += 1
     if self.depth > self.MAX_DEPTH:
       self.depth -= 1
